@@ -176,6 +176,90 @@ def reused_arrays(res):
                                           "row": {"m": masses, "na": na, "j": 0}})
 
 
+def semiactive_equivalence(res):
+    """with testparticle_type = 1 a body beyond N_active feels and exerts forces on the active ones and only ignores its like: a system
+    with exactly ONE such body is dynamically the all-active system.  Every transformation an integrator applies (forward, inverse,
+    position-only inverses inside corrector stages) must use the same active / test split for that to hold."""
+    import rebound
+    cfgs = []
+    for co in ("jacobi", "democraticheliocentric", "whds", "barycentric"):
+        for corr in ((0, 3, 5, 11, 17) if co in ("jacobi", "barycentric") else (0,)):      # correctors exist in Jacobi and barycentric coordinates only
+            cfgs.append(("whfast", {"coordinates": co, "corrector": corr}))
+        cfgs.append(("whfast", {"coordinates": co, "safe_mode": 0}))
+    for ker in ("modifiedkick", "composition", "lazy"):
+        cfgs.append(("whfast", {"kernel": ker, "corrector": 11}))
+    cfgs += [("saba", {}), ("saba", {"type": "cl4"}), ("eos", {}), ("leapfrog", {}), ("ias15", {}), ("bs", {}), ("mercurius", {}), ("trace", {})]
+    for name, opts in cfgs:
+        out = []
+        for semi in (False, True):
+            sim = rebound.Simulation()
+            sim.add(m=1.0)
+            sim.add(m=1e-3, a=1.0, e=0.05, inc=0.02, f=0.3)
+            sim.add(m=2e-3, a=1.7, e=0.10, inc=0.05, Omega=0.7, f=2.1)
+            sim.add(m=5e-4, a=2.9, e=0.07, inc=0.03, Omega=1.9, f=4.0)
+            sim.move_to_com()
+            sim.integrator = name
+            ri = getattr(sim, "ri_" + name, None)
+            for k, v in opts.items():
+                setattr(ri, k, v)
+            sim.dt = 0.05
+            if semi:
+                sim.N_active = sim.N - 1
+                sim.testparticle_type = 1
+            try:
+                sim.steps(40)
+                sim.synchronize()
+            except Exception as e:   # noqa: BLE001
+                res["violations"].append({"fn": "integrator " + name, "clause": "run with one semi-active body failed: %s" % str(e)[:80], "row": opts})
+                out = None
+                break
+            out.append([(p.x, p.y, p.z, p.vx, p.vy, p.vz) for p in sim.particles])
+        res["calls"] += 2
+        if out:
+            d = max(abs(a - b) for p, q in zip(*out) for a, b in zip(p, q))
+            res.setdefault("semiactive_worst", {})["%s %s" % (name, opts)] = d
+            if not d <= 1e-11:
+                res["violations"].append({"fn": "integrator " + name, "clause": "one semi-active body (testparticle_type = 1, N_active = N - 1) = all bodies active", "body": -1, "component": "max",
+                                          "original": 0.0, "got": d, "row": opts})
+
+
+def variation_independence(res):
+    """variational sets are independent of each other: the evolution of set A does not depend on whether a set B exists"""
+    import rebound
+    for name, opts in (("whfast", {}), ("whfast", {"safe_mode": 0}), ("ias15", {}), ("bs", {}), ("leapfrog", {})):
+        out = []
+        for nsets in (1, 2, 3):
+            sim = rebound.Simulation()
+            sim.add(m=1.0)
+            sim.add(m=1e-3, a=1.0, e=0.05, inc=0.02, f=0.3)
+            sim.add(m=2e-3, a=1.7, e=0.10, inc=0.05, Omega=0.7, f=2.1)
+            sim.move_to_com()
+            sim.integrator = name
+            ri = getattr(sim, "ri_" + name, None)
+            for k, v in opts.items():
+                setattr(ri, k, v)
+            sim.dt = 0.03
+            vs = []
+            for k in range(nsets):
+                v = sim.add_variation()
+                v.particles[1].x = 1.0 + 0.5 * k
+                v.particles[2].vy = -0.3 + 0.2 * k
+                vs.append(v)
+            if name in ("ias15", "bs"):
+                sim.integrate(0.75)          # adaptive: the step sizes may depend on every component, the state at a given time may not
+            else:
+                sim.steps(25)
+                sim.synchronize()
+            out.append([[(p.x, p.y, p.z, p.vx, p.vy, p.vz) for p in v.particles] for v in vs])
+        res["calls"] += 3
+        for (i1, k1), (i2, k2) in (((1, 0), (0, 0)), ((2, 0), (0, 0)), ((2, 1), (1, 1))):
+            a, b = out[i1][k1], out[i2][k2]
+            d = max(abs(x - y) if x == x and y == y else float("inf") for p, q in zip(a, b) for x, y in zip(p, q))
+            if not d <= (1e-13 if name not in ("ias15", "bs") else 1e-6):
+                res["violations"].append({"fn": "integrator " + name, "clause": "variational set %d evolves differently when %d instead of %d sets exist" % (k1, i1 + 1, i2 + 1),
+                                          "body": -1, "component": "max", "original": 0.0, "got": d, "row": opts})
+
+
 def main():
     table, out, stride = sys.argv[1], sys.argv[2], int(sys.argv[3])
     res = {"rows": 0, "calls": 0, "violations": [], "samples": []}
@@ -270,6 +354,8 @@ def main():
             break
     integrator_binding(res)
     reused_arrays(res)
+    semiactive_equivalence(res)
+    variation_independence(res)
     json.dump(res, open(out, "w"))
 
 
